@@ -1,6 +1,7 @@
 """C09 - pause and resume are transparent (pause twin)."""
 from ovf import workloads
 from ovf.props.common import batches, scale, ASSUME_SIM
+from ovf.props.sweeps import ctl_sweep  # noqa: F401
 from ovf.sim import explore
 from ovf.sim.provider import canon, h64
 
@@ -10,7 +11,8 @@ RULE = ("base histories = generated definitions x hashed outcomes x deterministi
         "base history a pause (requested as `pausing` or `paused`) is inserted, the actions in flight report without "
         "intervening polls, the workflow is resumed (as `resuming` or `running`) once at rest and runs on; the twin "
         "executes the same steps minus the two requests; compared: every later offer, final status, executed "
-        "multiset, errors (as multiset) and output; online: no offer while pausing/paused, `paused` iff nothing in "
+        "multiset, errors (as multiset) and output; a second sweep inserts the pause at every position and keeps "
+        "polling after every report while pausing/paused; online: no offer while pausing/paused, `paused` iff nothing in "
         "flight; non-trivial = pause accepted while >= 1 action in flight or >= 1 task staged; distinct = (definition, "
         "history, position, request form) digest")
 ASSUMPTIONS = ASSUME_SIM + ["the unpaused twin withholds the same polls as the paused run (a freely polling twin differs legitimately under fail-fast)"]
@@ -133,8 +135,12 @@ def pause_twin(job):
 
 def jobs(tier, seed):
     P = dict(p_intjoin=0.3, p_items=0.2, p_retry=0.15, p_fail_cmd=0.15, nmax=6)
-    return batches("pause_twin", scale(tier, 90, 2500), scale(tier, 5, 40), gen="mix", p_loop=0.25, P=P, gseed=seed,
-                   thin=scale(tier, 2, 1), name="pause-twin")
+    js = batches("pause_twin", scale(tier, 64, 2500), scale(tier, 4, 40), gen="mix", p_loop=0.25, P=P, gseed=seed,
+                 thin=scale(tier, 3, 1), name="pause-twin")
+    # the twin withholds polls while pausing; this sweep polls after every report while pausing / paused
+    js += batches("ctl_sweep", scale(tier, 32, 800), scale(tier, 2, 20), gen="mix", p_loop=0.25, P=P, gseed=seed + 1,
+                  modes=["pause"], name="pause-sweep-with-polls")
+    return js
 
 
 def reach(m):
